@@ -1,6 +1,9 @@
 import KdVerif.Proofs.IR
 import KdVerif.Gen.Decoders
 import KdVerif.Gen.Codes
+import KdVerif.Gen.PyIR
+import KdVerif.Proofs.PyIRTpRegistry
+import KdVerif.Spec.PyIRTpExpected
 /-
   C17 — every registered decoder is reachable; X and X_nocancel decode alike.
 
@@ -217,5 +220,174 @@ example : ∃ d ∈ decoders, d.key = 109681597891974153685437081016214353044844
     d.supported = true ∧ d.key / 256 ^ 9 = 23225981780499980644 := by decide +kernel
 
 example : (decoders.filter hasSuffix).length = 30 := by decide +kernel
+
+/-! ### translation tie: the registry `TracesParser.__init__` builds IS this decoder table
+
+  `tools/gen_pyir.py` translates the constructor of `traces_parser.py` (on every run, pure `ast`) into `Gen.PyIR.init`;
+  its field `updates` is the ORDERED list of families merged by `self.handlers = {}` followed by
+  `self.handlers.update(<family>_handlers)` — each name checked to be bound by
+  `from pykdebugparser.trace_handlers.<family> import handlers as <family>_handlers`.  `PyIRTp.merge fam us` is that
+  sequence of `dict.update` calls on insertion-ordered dicts (a later family wins on a duplicate name).  The dict of a
+  family is its part of the reflected table: `familyDict f` = the decoders with `family = f.idx`, keyed by name key. -/
+
+/-- The generated constructor is the expected one (`Spec/PyIRTpExpected`, quoting the Python): the attribute initialisers
+    and, in particular, the seven `update` calls in the order written; the translator met nothing it could not express. -/
+theorem source_is_expected_ir : Gen.PyIR.init = PyIRTp.Expected.init ∧ Gen.PyIR.notes = [] := by decide
+
+/-- `<family>_handlers` as reflected: the entries of the table that belong to the family, keyed by name key. -/
+def familyDict (f : PyIRTp.Family) : PyIR.AList Decoder :=
+  (decoders.filter (fun d => d.family == f.idx)).map (fun d => (d.key, d))
+
+/-- `self.handlers` after the interpreted `__init__`. -/
+def registry : PyIR.AList Decoder := PyIRTp.merge familyDict Gen.PyIR.init.updates
+
+/-- every reflected decoder belongs to one of the seven families (family numbers 0 … 6) -/
+theorem families_cover : decoders.all (fun d => decide (d.family < 7)) = true := by decide +kernel
+
+theorem mem_familyDict {f : PyIRTp.Family} {k : Nat} {d : Decoder} :
+    (k, d) ∈ familyDict f ↔ d ∈ decoders ∧ d.family = f.idx ∧ d.key = k := by
+  simp only [familyDict, List.mem_map, List.mem_filter, beq_iff_eq, Prod.mk.injEq]
+  constructor
+  · rintro ⟨x, ⟨hx, hf⟩, hk, rfl⟩; exact ⟨hx, hf, hk⟩
+  · rintro ⟨hd, hf, hk⟩; exact ⟨d, ⟨hd, hf⟩, hk, rfl⟩
+
+theorem eq_of_key_eq : ∀ (l : List Decoder), (l.map (·.key)).Nodup → ∀ a ∈ l, ∀ b ∈ l, a.key = b.key → a = b
+  | [], _, a, ha, _, _, _ => by simp at ha
+  | x :: r, h, a, ha, b, hb, hk => by
+    simp only [List.map_cons, List.nodup_cons, List.mem_map, not_exists, not_and] at h
+    rcases List.mem_cons.mp ha with rfl | ha' <;> rcases List.mem_cons.mp hb with rfl | hb'
+    · rfl
+    · exact absurd hk.symm (h.1 b hb')
+    · exact absurd hk (h.1 a ha')
+    · exact eq_of_key_eq r h.2 a ha' b hb' hk
+
+/-- **No name has two owners**: an entry of one family's dict and an entry of another's (or the same) under the same name
+    are the same entry — from `no_two_families_claim_same_name`. -/
+theorem family_entries_unique (f g : PyIRTp.Family) (k : Nat) (v v' : Decoder)
+    (h : (k, v) ∈ familyDict f) (h' : (k, v') ∈ familyDict g) : v = v' := by
+  obtain ⟨hv, _, hk⟩ := mem_familyDict.mp h
+  obtain ⟨hv', _, hk'⟩ := mem_familyDict.mp h'
+  exact eq_of_key_eq decoders no_two_families_claim_same_name v hv v' hv' (hk.trans hk'.symm)
+
+theorem family_of_idx (d : Decoder) (h : d.family < 7) : ∃ f ∈ PyIRTp.Family.all, d.family = f.idx := by
+  have : d.family = 0 ∨ d.family = 1 ∨ d.family = 2 ∨ d.family = 3 ∨ d.family = 4 ∨ d.family = 5 ∨ d.family = 6 := by
+    omega
+  rcases this with h | h | h | h | h | h | h
+  · exact ⟨.bsd, by decide, h⟩
+  · exact ⟨.dyld, by decide, h⟩
+  · exact ⟨.fsystem, by decide, h⟩
+  · exact ⟨.mach, by decide, h⟩
+  · exact ⟨.perf, by decide, h⟩
+  · exact ⟨.trace, by decide, h⟩
+  · exact ⟨.turnstile, by decide, h⟩
+
+/-- For ANY sequence of updates `us` that mentions every family (in any order, with repetitions): the merged registry binds
+    a name key to a decoder exactly when that decoder is in the table under that key. -/
+theorem merged_registry_is_table (us : List PyIRTp.Family) (hall : ∀ f ∈ PyIRTp.Family.all, f ∈ us) (k : Nat)
+    (d : Decoder) :
+    PyIR.AList.lookup k (PyIRTp.merge familyDict us) = some d ↔ d ∈ decoders ∧ d.key = k := by
+  rw [PyIRTp.merge_lookup_iff familyDict family_entries_unique]
+  constructor
+  · rintro ⟨f, _, hm⟩
+    obtain ⟨hd, _, hk⟩ := mem_familyDict.mp hm
+    exact ⟨hd, hk⟩
+  · rintro ⟨hd, hk⟩
+    have hlt : d.family < 7 := by
+      have := List.all_eq_true.mp families_cover d hd
+      simpa using this
+    obtain ⟨f, hf, hfi⟩ := family_of_idx d hlt
+    exact ⟨f, hall f hf, mem_familyDict.mpr ⟨hd, hfi, hk⟩⟩
+
+theorem updates_mention_all : ∀ f ∈ PyIRTp.Family.all, f ∈ Gen.PyIR.init.updates := by
+  rw [source_is_expected_ir.1]; decide
+
+/-- **registry_ir_eq_model.**  The registry the interpreted `__init__` merges — `{}` updated with the reflected dicts of
+    bsd, dyld, fsystem, mach, perf, trace, turnstile in the order written in the source, a later family winning on a
+    duplicate name — IS the decoder table `decoders` that the theorems of C17 (and of C07 / C09 / C10 / C18, which quantify
+    over `d ∈ Gen.Decoders.decoders`) are about: a name key is registered iff the table has a decoder under it, and it is
+    registered with exactly that decoder — its own family's entry (no other family's function object can win, because no
+    other family has the name). -/
+theorem registry_ir_eq_model (k : Nat) (d : Decoder) :
+    PyIR.AList.lookup k registry = some d ↔ d ∈ decoders ∧ d.key = k :=
+  merged_registry_is_table _ updates_mention_all k d
+
+/-- … as a lookup: `self.handlers.get(name)` is the table entry under that name key, if any. -/
+theorem registry_lookup_eq_find (k : Nat) :
+    PyIR.AList.lookup k registry = decoders.find? (fun d => d.key == k) := by
+  apply PyIRTp.option_ext_some
+  intro d
+  rw [registry_ir_eq_model]
+  constructor
+  · rintro ⟨hd, hk⟩
+    cases hf : decoders.find? (fun d => d.key == k) with
+    | none =>
+      have := List.find?_eq_none.mp hf d hd
+      simp [hk] at this
+    | some d' =>
+      have hk' : d'.key = k := by simpa using List.find?_some hf
+      rw [eq_of_key_eq decoders no_two_families_claim_same_name d' (List.mem_of_find?_eq_some hf) d hd (hk'.trans hk.symm)]
+  · intro hf
+    exact ⟨List.mem_of_find?_eq_some hf, by simpa using List.find?_some hf⟩
+
+/-- every registered decoder is in the registry under its own name, and only there -/
+theorem registry_mem (d : Decoder) : d ∈ decoders ↔ PyIR.AList.lookup d.key registry = some d := by
+  rw [registry_ir_eq_model]; simp
+
+/-- **registry_order_independent.**  The merge order as written + family-disjointness ⇒ the registry does not depend on the
+    order: ANY permutation of the seven `update` calls of the source builds a registry with the same bindings. -/
+theorem registry_order_independent (us : List PyIRTp.Family) (hp : us.Perm Gen.PyIR.init.updates) (k : Nat) :
+    PyIR.AList.lookup k (PyIRTp.merge familyDict us) = PyIR.AList.lookup k registry :=
+  PyIRTp.merge_order_independent familyDict family_entries_unique us Gen.PyIR.init.updates (fun _ => hp.mem_iff) k
+
+/-- … and so does any sequence that mentions every family at least once. -/
+theorem registry_any_complete_order (us : List PyIRTp.Family) (hall : ∀ f ∈ PyIRTp.Family.all, f ∈ us) (k : Nat) :
+    PyIR.AList.lookup k (PyIRTp.merge familyDict us) = PyIR.AList.lookup k registry := by
+  apply PyIRTp.option_ext_some
+  intro d
+  rw [merged_registry_is_table us hall, registry_ir_eq_model]
+
+/-- a family left out of the merge loses exactly its names: with the updates `us`, a decoder is registered iff its family
+    is among them -/
+theorem registry_of_some_families (us : List PyIRTp.Family) (k : Nat) (d : Decoder) :
+    PyIR.AList.lookup k (PyIRTp.merge familyDict us) = some d ↔
+      d ∈ decoders ∧ d.key = k ∧ ∃ f ∈ us, d.family = f.idx := by
+  rw [PyIRTp.merge_lookup_iff familyDict family_entries_unique]
+  constructor
+  · rintro ⟨f, hf, hm⟩
+    obtain ⟨hd, hfi, hk⟩ := mem_familyDict.mp hm
+    exact ⟨hd, hk, f, hf, hfi⟩
+  · rintro ⟨hd, hk, f, hf, hfi⟩
+    exact ⟨f, hf, mem_familyDict.mpr ⟨hd, hfi, hk⟩⟩
+
+/-! non-vacuity of the registry theorems -/
+
+/-- BSC_read is registered by the interpreted constructor, with the bsd family's entry … -/
+example : ∃ d, PyIR.AList.lookup 23225981780499980644 registry = some d ∧ d.family = PyIRTp.Family.bsd.idx := by
+  obtain ⟨d, hd, hk, hf⟩ : ∃ d ∈ decoders, d.key = 23225981780499980644 ∧ d.family = 0 := by decide +kernel
+  exact ⟨d, (registry_ir_eq_model _ d).mpr ⟨hd, hk⟩, hf⟩
+
+/-- … and without `self.handlers.update(bsd_handlers)` it would not be. -/
+example : PyIR.AList.lookup 23225981780499980644
+    (PyIRTp.merge familyDict [.dyld, .fsystem, .mach, .perf, .trace, .turnstile]) = none := by
+  apply PyIRTp.option_ext_some
+  intro d
+  rw [registry_of_some_families]
+  constructor
+  · rintro ⟨hd, hk, f, hf, hfi⟩
+    obtain ⟨d', hd', hk', hf'⟩ : ∃ d ∈ decoders, d.key = 23225981780499980644 ∧ d.family = 0 := by decide +kernel
+    have := eq_of_key_eq decoders no_two_families_claim_same_name d hd d' hd' (hk.trans hk'.symm)
+    subst this
+    rw [hf'] at hfi
+    simp only [List.mem_cons, List.not_mem_nil, or_false] at hf
+    rcases hf with rfl | rfl | rfl | rfl | rfl | rfl <;> simp [PyIRTp.Family.idx] at hfi
+  · intro h; simp at h
+
+/-- The hypothesis of the order-independence matters, and the interpreter can tell: over two toy families that share a
+    name, the order of the updates decides which entry wins. -/
+example :
+    let fam : PyIRTp.Family → PyIR.AList Nat := fun f => match f with | .bsd => [(1, 10), (2, 20)] | .dyld => [(2, 21)] | _ => []
+    PyIR.AList.lookup 2 (PyIRTp.merge fam [.bsd, .dyld]) = some 21 ∧
+    PyIR.AList.lookup 2 (PyIRTp.merge fam [.dyld, .bsd]) = some 20 ∧
+    PyIRTp.merge fam [.bsd, .dyld] = [(1, 10), (2, 21)] ∧ PyIRTp.merge fam [.dyld, .bsd] = [(2, 20), (1, 10)] := by decide
 
 end KdVerif.C17
